@@ -65,6 +65,23 @@ func child(c *vf.Ctx) {
 			}
 		}
 		c.Emit("resume", hi)
+	case "disc":
+		lo, _ := strconv.Atoi(c.ChildArgs[0])
+		hi, _ := strconv.Atoi(c.ChildArgs[1])
+		seeds := discSeeds(c, hi)
+		for i := lo; i < hi; i++ {
+			c.Mark(strconv.Itoa(i))
+			if !runDisc(c, seeds[i], i) {
+				c.Emit("resume", i+1)
+				return
+			}
+		}
+		c.Emit("resume", hi)
+	case "discone":
+		seed, _ := strconv.ParseInt(c.ChildArgs[0], 10, 64)
+		runDisc(c, seed, -1)
+	case "panicprobe":
+		panicProbe(c)
 	case "single": // one scripted scenario in its own process: fam api(inst|pkg) logger(0|1) holdMs seed
 		fam, pkg, logger := c.ChildArgs[0], c.ChildArgs[1] == "pkg", c.ChildArgs[2] == "1"
 		holdMs, _ := strconv.Atoi(c.ChildArgs[3])
@@ -73,6 +90,8 @@ func child(c *vf.Ctx) {
 		if fam == "det" {
 			daemon.VerifYield = gateHook
 			runScenarioOn(c, seed, -1, pkg, logger)
+		} else if fam == "disc" {
+			runDiscOn(c, seed, -1, pkg, logger)
 		} else {
 			runLifeOn(c, seed, -1, pkg, logger, holdMs)
 		}
@@ -115,6 +134,8 @@ func famRange(c *vf.Ctx, fam string, lo, hi int) {
 		seed := cfgSeeds(c, at+1)[at]
 		if fam == "life" {
 			seed = lifeSeeds(c, at+1)[at]
+		} else if fam == "disc" {
+			seed = discSeeds(c, at+1)[at]
 		}
 		switch {
 		case res.TimedOut:
@@ -330,12 +351,19 @@ func run(c *vf.Ctx) {
 			} else if res.ExitCode != 0 {
 				c.Violation("fatal:"+fatalClass(res.Fatal), "replay child died: "+res.Fatal, r)
 			}
+		case "disc":
+			res := c.RunChild(vf.ChildOpts{Name: "discone", Args: []string{strconv.FormatInt(r.CfgSeed, 10)}, Timeout: 2 * time.Minute, Env: []string{"GOMAXPROCS=4"}})
+			if res.TimedOut {
+				c.Inconclusive("replay timed out")
+			} else if res.ExitCode != 0 {
+				c.Violation("fatal:"+fatalClass(res.Fatal), "replay child died: "+res.Fatal, r)
+			}
 		case "stress":
 			stressBatch(c, r.Batch, r.From, r.Iters, r.Race)
 		}
 		return
 	}
-	c.SetRule("one evaluation = one oracle decision on the real daemon: (a) at every quiescent point of a scripted scenario (all goroutines parked, shutdown goroutine in WaitGroup.Wait or gone) each live worker's ctx.Err() is compared with 'every worker of strictly higher order has returned' (both directions), ShutdownAndWait/Run callers that returned are checked against unreturned workers, registrations of running names / after shutdown must be refused, a BackgroundWorker call gated at daemon.bgworker.afterStoppedCheck while shutdown runs must be refused or its worker cancelled and waited for; (b) per BackgroundWorker call of the free-running stress (plain and -race; every sixth iteration is the 'shutdown requested by the k-th started worker while Start launches 3/50/2000 workers' workload, every third iteration is the 'worker exit vs re-registration' workload: callers spin on BackgroundWorker(sameName) while the old handler returns, 2-5 names, up to 3 generations, optional Run, shutdown after or during): accepted workers returned before ShutdownAndWait did (logical clock), cancelled workers see no cancelled unreturned lower-order worker. Bursts of the read-only / no-op-looking API (GetRunningBackgroundWorkers, IsRunning, IsStopped, ContextStopped, DebugLogger(nil), a second Start, the default-daemon getters; 0-3 calls each) are interleaved before Start, while running, right before and during shutdown and afterwards, and their results are compared with the model at quiescent points. Configurations come from a per-index seed (orders from a pool with ties, negatives, gaps, int32 and platform-int boundary values, a third of the pools with a pair more than math.MaxInt apart; early finishers; re-registration; 1-4 shutdown callers; Run). (c) life-cycle entry-point combinations (lifecycle.go, scripted, one gate at a time): the daemon is started with Start() or Run(), the shutdown is requested by Shutdown() or ShutdownAndWait() from another goroutine, and further Run/ShutdownAndWait/Shutdown/Start calls arrive from fresh goroutines while running, in the same step as the shutdown request, at seeded steps of the winding down (at least one per configuration; parked before, or overlapping, the next worker's return), after the stop, and on a daemon stopped before it was started; every Run/ShutdownAndWait call found returned at a quiescent point while a worker that was inside its handler at the previous quiescent point is still inside it is a violation, as is a call blocked for ever once nothing runs, a worker started or a registration accepted on a stopped daemon; the ordering invariant of (a) runs at every one of these points. (d) configuration space: a fixed number of (a) and (c) scenarios run on the package-level default daemon API (daemon.BackgroundWorker/Start/Run/Shutdown/ShutdownAndWait/IsRunning/...; one scenario per process because the default daemon cannot be restarted), every second one with a debug logger installed through daemon.DebugLogger (output discarded); a few (c) scenarios are 'patience' runs (instance, default daemon, default daemon with logger): with a Run and a second ShutdownAndWait parked, all gates stay shut for patience_hold_ms of wall time while the highest order is gated and again when only the last order is left, and the same structural oracles are evaluated at the end of the hold (the duration itself decides nothing). distinct_nontrivial counts distinct (order multiset at shutdown, gate-release order, variant set) triples of started daemons with >= 2 distinct orders and >= 1 gate release")
+	c.SetRule("one evaluation = one oracle decision on the real daemon: (a) at every quiescent point of a scripted scenario (all goroutines parked, shutdown goroutine in WaitGroup.Wait or gone) each live worker's ctx.Err() is compared with 'every worker of strictly higher order has returned' (both directions), ShutdownAndWait/Run callers that returned are checked against unreturned workers, registrations of running names / after shutdown must be refused, a BackgroundWorker call gated at daemon.bgworker.afterStoppedCheck while shutdown runs must be refused or its worker cancelled and waited for; (b) per BackgroundWorker call of the free-running stress (plain and -race; every sixth iteration is the 'shutdown requested by the k-th started worker while Start launches 3/50/2000 workers' workload, every third iteration is the 'worker exit vs re-registration' workload: callers spin on BackgroundWorker(sameName) while the old handler returns, 2-5 names, up to 3 generations, optional Run, shutdown after or during): accepted workers returned before ShutdownAndWait did (logical clock), cancelled workers see no cancelled unreturned lower-order worker. Bursts of the read-only / no-op-looking API (GetRunningBackgroundWorkers, IsRunning, IsStopped, ContextStopped, DebugLogger(nil), a second Start, the default-daemon getters; 0-3 calls each) are interleaved before Start, while running, right before and during shutdown and afterwards, and their results are compared with the model at quiescent points. Configurations come from a per-index seed (orders from a pool with ties, negatives, gaps, int32 and platform-int boundary values, a third of the pools with a pair more than math.MaxInt apart; early finishers; re-registration; 1-4 shutdown callers; Run). (c) life-cycle entry-point combinations (lifecycle.go, scripted, one gate at a time): the daemon is started with Start() or Run(), the shutdown is requested by Shutdown() or ShutdownAndWait() from another goroutine, and further Run/ShutdownAndWait/Shutdown/Start calls arrive from fresh goroutines while running, in the same step as the shutdown request, at seeded steps of the winding down (at least one per configuration; parked before, or overlapping, the next worker's return), after the stop, and on a daemon stopped before it was started; every Run/ShutdownAndWait call found returned at a quiescent point while a worker that was inside its handler at the previous quiescent point is still inside it is a violation, as is a call blocked for ever once nothing runs, a worker started or a registration accepted on a stopped daemon; the ordering invariant of (a) runs at every one of these points. (d) configuration space: a fixed number of (a) and (c) scenarios run on the package-level default daemon API (daemon.BackgroundWorker/Start/Run/Shutdown/ShutdownAndWait/IsRunning/...; one scenario per process because the default daemon cannot be restarted), every second one with a debug logger installed through daemon.DebugLogger (output discarded); a few (c) scenarios are 'patience' runs (instance, default daemon, default daemon with logger): with a Run and a second ShutdownAndWait parked, all gates stay shut for patience_hold_ms of wall time while the highest order is gated and again when only the last order is left, and the same structural oracles are evaluated at the end of the hold (the duration itself decides nothing). (e) workload disciplines (disc.go, scripted like (a)): an impolite caller passes the order of every BackgroundWorker call as buf... from ONE reused buffer (overwritten right after the call or by the next registration; with the order of another worker, a neighbouring or any other order) or from per-registration buffers it recycles after Start, before the shutdown request and during the winding down; the call must leave the slice unchanged and the orders in force are the values at call time (ordering oracle of (a)); names come from a reused byte buffer, handlers through a reused variable; every slice returned by GetRunningBackgroundWorkers is held with a copy, re-compared after each of the next 5 steps and a third is scribbled (overwritten, reversed, re-sliced/appended within and beyond capacity); worker functions call back into their own daemon first thing at start (under Start/Run or the registering call), while running, after their cancellation and while the daemon winds down: BackgroundWorker(own name) must be refused without side effect, BackgroundWorker(new/finished name) joins the model when accepted (also after the shutdown request: then it must be cancelled in order and waited for), Shutdown() requested by a worker function, Start(), the read-only calls (judged against the model when made at a quiescent point); a re-entrant call that is parked at a quiescent point and stays parked after every other worker was released is a violation (all of them return on the unchanged tree; ShutdownAndWait/Run from inside a worker function wait for the caller itself and are not driven); worker functions that return at once, their names re-registered afterwards; one panicprobe child records what a panicking worker function does to the process (unchanged tree: the process dies with the worker's panic; nothing demanded). distinct_nontrivial counts distinct (order multiset at shutdown, gate-release order, variant set) triples of started daemons with >= 2 distinct orders and >= 1 gate release")
 	nCfg := c.Pick(1200, 20000)
 	procs := runtime.NumCPU() / 2
 	if procs < 2 {
@@ -367,13 +395,51 @@ func run(c *vf.Ctx) {
 		wg.Add(1)
 		go func() { defer wg.Done(); famRange(c, "life", lo, hi) }()
 	}
+	// the three workload disciplines (disc.go): caller-owned arguments and results, re-entrant and
+	// at-once-returning worker functions; scripted like the families above
+	nDisc := c.Pick(400, 6000)
+	discProcs := max(procs/4, 2)
+	perDisc := (nDisc + discProcs - 1) / discProcs
+	for p := 0; p < discProcs; p++ {
+		lo, hi := p*perDisc, min((p+1)*perDisc, nDisc)
+		if lo >= hi {
+			continue
+		}
+		wg.Add(1)
+		go func() { defer wg.Done(); famRange(c, "disc", lo, hi) }()
+	}
+	nPkgDisc := c.Pick(8, 80)
+	wg.Add(1)
+	go func() { // what the daemon does with a panicking worker function (evidence only)
+		defer wg.Done()
+		res := c.RunChild(vf.ChildOpts{Name: "panicprobe", Timeout: time.Minute, Env: []string{"GOMAXPROCS=2"}})
+		c.Count("panic_probes", 1)
+		survived := false
+		for _, r := range res.Records {
+			if r.Kind == "survived" {
+				survived = true
+			}
+		}
+		switch {
+		case survived:
+			c.Count("panic_probe_daemon_survived", 1)
+		case res.ExitCode != 0 && !res.TimedOut && strings.Contains(res.Stderr, panicMarker):
+			c.Count("panic_probe_process_died_with_the_workers_panic", 1)
+		default:
+			c.Note(fmt.Sprintf("panic probe ended unexpectedly: exit=%d timedOut=%v fatal=%q", res.ExitCode, res.TimedOut, res.Fatal))
+		}
+	}()
 	// configuration space: both scripted families on the package-level default daemon (one scenario per
 	// process), every second one with a debug logger installed
 	nPkg := c.Pick(24, 300) // per family
 	pkgSem := make(chan struct{}, 3)
-	for _, fam := range []string{"det", "life"} {
+	for _, fam := range []string{"det", "life", "disc"} {
 		r := c.Rand("pkgcfg-" + fam)
-		for i := 0; i < nPkg; i++ {
+		n := nPkg
+		if fam == "disc" {
+			n = nPkgDisc
+		}
+		for i := 0; i < n; i++ {
 			seed, logger := r.Int63(), i%2 == 1
 			wg.Add(1)
 			go func() {
@@ -465,6 +531,32 @@ func run(c *vf.Ctx) {
 	c.Require("det_on_default_daemon_with_debug_logger", nPkg/2)
 	c.Require("life_on_default_daemon", nPkg/2)
 	c.Require("life_on_default_daemon_with_debug_logger", nPkg/2)
+	c.Require("disc_configurations", nDisc)
+	c.Require("disc_configs_distinct_orders_through_one_buffer", nDisc/4) // >= 2 distinct orders of workers live at shutdown went through the ONE reused order buffer
+	c.Require("disc_order_args_overwritten_after_call", nDisc)
+	c.Require("disc_order_buffers_overwritten_after-start", nDisc/2)
+	c.Require("disc_order_buffers_overwritten_before-shutdown", nDisc/2)
+	c.Require("disc_order_buffers_overwritten_during-shutdown", nDisc)
+	c.Require("disc_held_results", nDisc*2)
+	c.Require("disc_held_rechecks", nDisc*8)
+	c.Require("disc_held_scribbled", nDisc)
+	c.Require("disc_reentrant_bg-own_at-start", nDisc/2) // the worker function registers its own name first thing: refused, and the worker stays in the shutdown sequence
+	c.Require("disc_reentrant_bg-own_running", nDisc/10)
+	c.Require("disc_reentrant_bg-own_cancelled", nDisc/5)
+	c.Require("disc_reentrant_bg-new_at-start", nDisc/2)
+	c.Require("disc_reentrant_bg-new_running", nDisc/8)
+	c.Require("disc_reentrant_registrations_accepted", nDisc/2)
+	c.Require("disc_reentrant_registrations_refused_after_shutdown_request", nDisc/4)
+	c.Require("disc_reentrant_get-running_running", nDisc/8)
+	c.Require("disc_reentrant_queries_cancelled", nDisc/5)
+	c.Require("disc_shutdown_requested_by_worker_function", nDisc/4)
+	c.Require("disc_reentrant_shutdown_at-start", nDisc/40)
+	c.Require("disc_workers_returning_at_once", nDisc/8)
+	c.Require("disc_reregistered_after_return_at_once", nDisc/40)
+	c.Require("disc_shapes", nDisc/2)
+	c.Require("disc_on_default_daemon", nPkgDisc/2)
+	c.Require("disc_on_default_daemon_with_debug_logger", nPkgDisc/2)
+	c.Require("panic_probes", 1)
 	c.Require("patience_holds", nPatience+nPatience/2) // two holds per patience run unless it has a single order left after the first
 	c.Require("patience_holds_with_debug_logger", nPatience/2)
 	c.Require("patience_calls_blocked_after_hold", nPatience*2) // Run/ShutdownAndWait callers still parked at the end of a hold
